@@ -826,7 +826,7 @@ def _validated_recurrence(I, fn_name):
     whose other exits are all returns — its per-iteration facts hold at every point of the chain
     o0, step(o0), ... at which the guard held, on every path that reaches the code after the loop"""
     for rep in I.loop_reports:
-        if rep.fn != fn_name or rep.kind != "loop":
+        if rep.kind != "loop":
             continue
         if len(rep.carried) != 1 or len(rep.backs) != 1:
             continue
@@ -851,7 +851,7 @@ def _validated_recurrence(I, fn_name):
                 "returns": rep.exit_kinds, "final": Lin.atom(atom), "form": "while"}
     # the same recurrence written with the test at the end of the body (`loop { checks; o += L; if o >= len { break } }`)
     for rep in I.loop_reports:
-        if rep.fn != fn_name or rep.kind != "loop" or len(rep.carried) != 1 or len(rep.backs) != 1:
+        if rep.kind != "loop" or len(rep.carried) != 1 or len(rep.backs) != 1:
             continue
         atom, init = rep.carried[0]
         delta, new = rep.backs[0]
